@@ -33,11 +33,12 @@ const (
 	mutWrongWire
 	mutLongVarint
 	mutEndGroup
+	mutIntText
 	mutCount
 )
 
 var mutNames = [...]string{"none", "concat", "unknown-varint", "unknown-len", "unknown-fixed", "unknown-group",
-	"flip", "truncate", "insert", "wrong-wiretype", "long-varint", "end-group"}
+	"flip", "truncate", "insert", "wrong-wiretype", "long-varint", "end-group", "int-text"}
 
 func (g *Gen) mutate(kind int, bz, other []byte) []byte {
 	out := append([]byte{}, bz...)
@@ -130,6 +131,59 @@ func (g *Gen) mutate(kind int, bz, other []byte) []byte {
 		return place(append(appendVarint(nil, num<<3|0), v...))
 	case mutEndGroup:
 		return place(appendVarint(nil, uint64(1+g.r.Intn(20))<<3|4))
+	case mutIntText:
+		// length-preserving rewrites inside a run of decimal digits (the text of an sdkmath.Int /
+		// LegacyDec): Go reads it with big.Int base 0 — signs, 0x/0b/0o prefixes, octal, separators
+		var runs [][2]int
+		for i := 0; i < len(out); {
+			j := i
+			for j < len(out) && out[j] >= '0' && out[j] <= '9' {
+				j++
+			}
+			if j-i >= 3 {
+				runs = append(runs, [2]int{i, j})
+			}
+			if j == i {
+				j++
+			}
+			i = j
+		}
+		if len(runs) == 0 {
+			return out
+		}
+		r := runs[g.r.Intn(len(runs))]
+		a, b := r[0], r[1]
+		switch g.r.Intn(12) {
+		case 0:
+			copy(out[a:], "0x")
+		case 1:
+			copy(out[a:], "0X")
+		case 2:
+			copy(out[a:], "0b")
+			for k := a + 2; k < b; k++ {
+				out[k] = '0' + out[k]%2
+			}
+		case 3:
+			copy(out[a:], "0o")
+		case 4:
+			out[a] = '+'
+		case 5:
+			out[a] = '0'
+		case 6:
+			out[a+1+g.r.Intn(b-a-2)] = '_'
+		case 7:
+			out[a] = '_'
+		case 8:
+			out[b-1] = '_'
+		case 9:
+			k := a + g.r.Intn(b-a-1)
+			out[k], out[k+1] = '_', '_'
+		case 10:
+			copy(out[a:], "0_")
+		case 11:
+			out[a+g.r.Intn(b-a)] = []byte{'a', 'F', 'e', ' ', '.', 'x'}[g.r.Intn(6)]
+		}
+		return out
 	}
 	return out
 }
@@ -160,6 +214,34 @@ func RunDecode(cfg Config) error {
 	defer out.Flush()
 
 	okBy, errBy := map[string]int{}, map[string]int{}
+	// a fixed table first: the text forms of a big integer (Go reads them with big.Int base 0), as the
+	// amount of a deposit-module Coin-bearing message
+	for _, e := range types {
+		if e.Name != "sentinel.swap.v1.Swap" {
+			continue
+		}
+		for _, c := range []string{"0", "-0", "+0", "7", "+7", "-7", "007", "017", "09", "0_7", "0_", "_7", "7_", "1__0", "1_000", "0x1f", "0X1F", "0x",
+			"0x_1f", "0x1f_", "0b101", "0b102", "0o17", "0O17", "0o8", "1e3", " 1", "1 ", "-", "+", "--1", "+-1", "0xg", "00", "0_0", "1_0_0", "0b_1", "0B1_1",
+			"1a", "a", "0x_", "-0x10", "+0b11", "0xffffffffffffffffffffffffffffffffffffffffffffffffffffffffffffffff", "0x10000000000000000000000000000000000000000000000000000000000000000"} {
+			// Swap{tx_hash=1 bytes, receiver=2 string, amount=3 Coin{denom=1, amount=2}}
+			coin := append([]byte{0x0a, 0x01, 'a', 0x12, byte(len(c))}, c...)
+			in := append([]byte{0x1a, byte(len(coin))}, coin...)
+			fresh := e.New()
+			err, pan := guard(func() error { return cdc.Unmarshal(in, fresh) })
+			res := ""
+			switch {
+			case pan:
+				res = "err:panic:" + clean(err.Error(), 100)
+			case err != nil:
+				res = "err:" + clean(err.Error(), 100)
+			default:
+				res = Text(fresh, false)
+			}
+			if _, werr := fmt.Fprintf(out, "pbd %s %s => %s\n", e.Name, hex.EncodeToString(in), res); werr != nil {
+				return werr
+			}
+		}
+	}
 	for k := 0; k < cfg.N; k++ {
 		ti := k % len(types)
 		e, g := types[ti], gens[ti]
